@@ -120,3 +120,46 @@ func init() {
 		return s
 	}
 }
+
+func stepSpec(prop string) *Spec {
+	return &Spec{
+		Prop:          prop,
+		Pkgs:          []string{"board", "attacks"},
+		SliderSummary: true,
+		Stubs:         []string{"attacks.RookMoves/BishopMoves -> ray-walk specification, per square, only where the C12 lemma (forall occ: lookup == ray walk) was re-proved on this run"},
+		Assumptions:   []string{"validity predicate of the property's quantifier (VpValid in harness/board/spec.go), legality/pseudo-legality by the mailbox FIDE specification (VpPseudoLegal, VpLegal)"},
+	}
+}
+
+func init() {
+	Reg["C02"] = func(tier string, seed int64) *Spec {
+		s := stepSpec("C02")
+		s.Bounds = []string{
+			"one MakeMove step from an ARBITRARY valid position (64 symbolic cells, castling, e.p., clocks, 2 earlier history entries) for a concrete (side, from, to, promotion) case; game histories of any length follow by induction because the successor is asserted valid again",
+			"quick: all castling cases, half of the double pushes, seeded sample of the other categories; thorough: all 3760 cases",
+			"halfmove clock 0..127, fullmove number 1..2^31-1",
+		}
+		s.Exclusions = []string{"fifty-clock-wrap"}
+		s.Instances = stepInstances("VpH_C02_step", tier, seed, 2, 1, nil)
+		s.Witnesses = map[string]run.Instance{
+			"fifty-clock-wrap": {Pkg: "board", Func: "VpH_C02_step", Params: map[string]int64{"stm": 0, "from": 6, "to": 21, "promo": 0, "hist": 2}},
+		}
+		s.Outside = []string{"the UCI text layer beyond parseUCIMove (string splitting in handlePosition)"}
+		return s
+	}
+	Reg["C04"] = func(tier string, seed int64) *Spec {
+		s := stepSpec("C04")
+		s.Bounds = []string{
+			"one MakeMove / MakeNullMove step from an ARBITRARY valid position whose current hash equals the from-scratch hash; any interleaving of moves and null moves follows by induction",
+			"quick: seeded sample of the (side, from, to, promotion) case split (all castling cases); thorough: all 3760 cases",
+		}
+		s.Assumptions = append(s.Assumptions, "64-bit Zobrist keys are taken from the real init code (native dump); hash equality is exact term equality, no collision assumption is needed for this property")
+		s.Instances = stepInstances("VpH_C04_hash", tier, seed, 2, 1, nil)
+		for stm := int64(0); stm < 2; stm++ {
+			s.Instances = append(s.Instances,
+				run.Instance{Pkg: "board", Func: "VpH_C04_null", Params: map[string]int64{"stm": stm, "hist": 2}},
+				run.Instance{Pkg: "board", Func: "VpH_C04_function", Params: map[string]int64{"stm": stm}})
+		}
+		return s
+	}
+}
